@@ -4,7 +4,7 @@
 //! replayed from a clean state), every step is compared with a reference model.
 
 use gpa_harness::verif::policy::Policy;
-use gpa_harness::verif::world::{self, AuditRec, World, WorldOpts, IMDS, OTHER, WS};
+use gpa_harness::verif::world::{self, AuditRec, World, WorldOpts, HOSTGA, IMDS, OTHER, WS};
 use serde_json::{json, Value};
 use std::collections::{BTreeMap, HashSet, VecDeque};
 use std::time::{Duration, Instant};
@@ -586,6 +586,82 @@ fn main() {
         cx.w.hosts.imds.set_responder(Arc::new(|_m: &Msg, _c, _i| Action::Reply(vec![simple_response(200, &[], b"ok")])));
     }
     res.cov("host_header_names_another_endpoint_cases", host_hdr_cases);
+
+    // ---- family: two recorded destinations on one address (WireServer :80 and HostGAPlugin :32526), one connection each,
+    // the first one closed or still open when the second is made: every request goes to the destination of its own connection
+    let mut two_dest_cases = 0u64;
+    {
+        let hosts = cx.w.hosts.all();
+        let idx = |a: &str| hosts.iter().position(|h| h.addr.to_string() == a).unwrap();
+        let p4 = 41600u16;
+        for (first, second) in [(WS, HOSTGA), (HOSTGA, WS)] {
+            for first_still_open in [false, true] {
+                cx.w.clear_audit();
+                let cur = cx.w.hosts.cursors();
+                let ask = |c: &mut Client, tag: &str| c.send(&build_request("GET", tag, &[("Host", b"h")], None, None)).map_err(|e| e.to_string()).and_then(|_| c.read_response(false, Duration::from_secs(10)).map(|m| m.status()));
+                let mut a = Some(cx.w.connect(Some(p4), Some(&AuditRec::to(first, 0, cx.root_pid, true))).unwrap_or_else(|e| vcommon::result::machinery(&format!("connect: {e}"))));
+                let sa = ask(a.as_mut().unwrap(), "/two/a");
+                if !first_still_open {
+                    a.take().unwrap().close();
+                    let _ = cx.sentinel();
+                }
+                let mut b = cx.w.connect(Some(p4 + 1), Some(&AuditRec::to(second, 0, cx.root_pid, true))).unwrap_or_else(|e| vcommon::result::machinery(&format!("connect: {e}")));
+                let sb = ask(&mut b, "/two/b");
+                let sa2 = match a.as_mut() {
+                    Some(a) => ask(a, "/two/a2"),
+                    None => Ok(200),
+                };
+                if let Some(a) = a {
+                    a.close();
+                }
+                b.close();
+                two_dest_cases += 1;
+                let seen = |host: &str, tag: &str| hosts[idx(host)].requests_since(cur[idx(host)]).iter().filter(|(_, m)| m.target() == tag).count();
+                if sa != Ok(200) || sb != Ok(200) || sa2 != Ok(200) || seen(first, "/two/a") != 1 || seen(second, "/two/b") != 1 || seen(first, "/two/b") != 0 || (first_still_open && seen(first, "/two/a2") != 1) {
+                    res.violation(
+                        "request-relayed-to-an-endpoint-other-than-the-recorded-one:same-address-other-port",
+                        &format!("connection 1 recorded for {first} ({}), connection 2 for {second}: statuses {:?} / {:?} / {:?}; /two/a at {first}: {}, /two/b at {second}: {}, /two/b at {first}: {}", if first_still_open { "still open" } else { "closed" }, sa, sb, sa2, seen(first, "/two/a"), seen(second, "/two/b"), seen(first, "/two/b")),
+                        json!({"family": "two-destinations-one-address", "first": first, "second": second, "first_still_open": first_still_open}),
+                    );
+                }
+                let _ = cx.sentinel();
+            }
+        }
+    }
+    res.cov("two_destinations_one_address_cases", two_dest_cases);
+
+    // ---- family: a record waits for source port Q (its connection has not reached the listener yet); a direct connection
+    // comes from a port that is Q with its two bytes swapped, or Q +- 1, Q +- 256: it is unattributed and Q's record stays
+    let mut near_port_cases = 0u64;
+    {
+        let alice = cx.rec(Ident::Alice).unwrap();
+        for q in [37057u16, 41990, 40960] {
+            for p in [q.swap_bytes(), q.wrapping_add(1), q.wrapping_sub(1), q.wrapping_add(256), q.wrapping_sub(256)] {
+                if p < 1024 || p == q || p >= 52000 {
+                    continue;
+                }
+                cx.w.clear_audit();
+                cx.w.inject_audit(q, &alice);
+                let cur = cx.w.hosts.cursors();
+                let st = match cx.w.connect(Some(p), None) {
+                    Ok(mut c) => {
+                        let r = c.send(&build_request("GET", "/a/x", &[("Host", b"h"), ("Metadata", b"true")], None, None)).map_err(|e| e.to_string()).and_then(|_| c.read_response(false, Duration::from_secs(10)).map(|m| m.status()));
+                        c.close();
+                        r
+                    }
+                    Err(e) => Err(format!("connect: {e}")),
+                };
+                near_port_cases += 1;
+                let upstream: usize = cx.w.hosts.all().iter().enumerate().map(|(i, h)| h.requests_since(cur[i]).iter().filter(|(_, m)| m.target() == "/a/x").count()).sum();
+                if st != Ok(421) || upstream != 0 || !cx.w.audit_present(q) {
+                    res.violation("direct-connection-served-with-the-record-of-another-port", &format!("a record waits for source port {q}; a direct connection from port {p} got {:?} (want 421), {upstream} request(s) upstream, the record for {q} is {}", st, if cx.w.audit_present(q) { "still there" } else { "gone" }), json!({"family": "record-of-a-nearby-port", "record_port": q, "direct_port": p}));
+                }
+                cx.w.clear_audit();
+                let _ = cx.sentinel();
+            }
+        }
+    }
+    res.cov("record_of_a_nearby_port_cases", near_port_cases);
 
     // ---- contention family (sampled, labelled): the BpfObject mutex is busy while connections are accepted
     let n_cont = if thorough { 120 } else { 30 };
